@@ -6,8 +6,14 @@
 
       - position x (one horizontal coordinate, grid units), depth class (never changes), age (steps), temp;
       - Forcing.update stores the scalar field in force ("temp") and caches the particle's depth class;
-      - Tracker.update moves x by u * factor(class) * dt/dx with the velocity in force (sign-flipped when the
-        clock runs backwards) and kills the particle when the candidate leaves (lo, hi);
+      - Tracker.update moves x by U * dt/dx, where U is the velocity the particle FEELS: the flow in force
+        u * factor(class) (sign-flipped when the clock runs backwards) sits on the u-faces of the grid line, a
+        face next to a LAND cell is masked to zero (ROMS.Forcing._read_velocity multiplies by the u-mask), and
+        the particle at x feels the linear interpolation in x between its two faces (ROMS.sample3DUV along a
+        flow uniform in y) — without land simply u * factor(class);
+        the particle is killed when the candidate leaves (lo, hi) (Grid.ingrid), and the move is CANCELLED —
+        the particle stays where it is, alive — when the candidate lies in a land cell (Grid.atsea; the cell
+        of a position is its round-half-even, as in Model/Tracker.v);
       - the IBM ages the particle and kills it at age >= lifetime (lifetime < 0: never).
 
     The releaser works in either mode of release.py: DISCRETE ([s_cont] = None: the rows of the table at their
@@ -36,7 +42,8 @@ Record setup := {
   s_dtdx : Q;                        (* dt / dx *)
   s_lo : Q; s_hi : Q;                (* open interval of valid positions *)
   s_life : Z;                        (* IBM lifetime in steps, negative = none *)
-  s_cfac : list Q                    (* velocity factor of each depth class *)
+  s_cfac : list Q;                   (* velocity factor of each depth class *)
+  s_land : list Z                    (* the x-cells that are land along the particle line *)
 }.
 
 Definition row_part (r : row) : Z * pv :=
@@ -51,10 +58,24 @@ Definition cfac (s : setup) (c : Z) : Q := match znth_opt (s_cfac s) c with Some
 
 (** the physics, parameterised by the forcing in force *)
 Definition with_temp (v : pv) (t : Q) : pv := {| vx := vx v; vcls := vcls v; vage := vage v; vtemp := t |}.
+(** land and the masked u-faces: face k lies at x = k + 1/2, between the cells k and k + 1, and carries the
+    flow U unless one of its two cells is land; a particle at x, with k0 = floor(x - 1/2), sits between the
+    faces k0 and k0 + 1 at the fraction p = x - 1/2 - k0 and feels their linear interpolation *)
+Definition is_land (s : setup) (k : Z) : bool := existsb (Z.eqb k) (s_land s).
+Definition face (s : setup) (U : Q) (k : Z) : Q := if is_land s k || is_land s (k + 1) then 0%Q else U.
+Definition felt (s : setup) (U x : Q) : Q :=
+  let k0 := qfloor (x - (1 # 2)) in
+  let p := (x - (1 # 2) - inject_Z k0)%Q in
+  ((1 - p) * face s U k0 + p * face s U (k0 + 1))%Q.
+(** Tracker.update: the candidate out of the valid interval kills (value unchanged); the candidate in a land
+    cell cancels the move (value unchanged, still alive); otherwise the particle moves to the candidate.
+    The candidate is kept as a REDUCED fraction ([Qred], the same rational): the position enters the felt flow
+    through the interpolation weight, so unreduced denominators would be cubed at every step *)
 Definition move (s : setup) (u : Q) (v : pv) (c : Z) : pv * bool :=
-  let cand := (vx v + u * cfac s c * s_dtdx s)%Q in
+  let cand := Qred (vx v + felt s (u * cfac s c) (vx v) * s_dtdx s)%Q in
   if Qlt_bool (s_lo s) cand && Qlt_bool cand (s_hi s)
-  then ({| vx := cand; vcls := vcls v; vage := vage v; vtemp := vtemp v |}, true)
+  then if is_land s (qround cand) then (v, true)
+       else ({| vx := cand; vcls := vcls v; vage := vage v; vtemp := vtemp v |}, true)
   else (v, false).
 Definition ibm (s : setup) (n : Z) (v : pv) : pv * bool :=
   let a := vage v + 1 in
@@ -133,7 +154,7 @@ Definition shift_tk' (t : tk) (d : Z) : tk :=
 Definition shift_setup (s : setup) (d : Z) : setup :=
   {| s_tk := shift_tk' (s_tk s) d; s_files := map (map (shift_rec d)) (s_files s);
      s_tab := map (shift_row d) (s_tab s); s_cont := s_cont s; s_period := s_period s; s_dtdx := s_dtdx s;
-     s_lo := s_lo s; s_hi := s_hi s; s_life := s_life s; s_cfac := s_cfac s |}.
+     s_lo := s_lo s; s_hi := s_hi s; s_life := s_life s; s_cfac := s_cfac s; s_land := s_land s |}.
 
 (** the mirror image of a reversed set-up: a forward clock over the axis x |-> 2*start - x, every forcing
     frame and release row at its mirror time, velocities sign-flipped, scalars unchanged *)
@@ -145,7 +166,7 @@ Definition mirror_row' (t : tk) (r : row) : row := {| rt := mirror_x t (rt r); r
 Definition mirror_setup (s : setup) : setup :=
   {| s_tk := mirror_tk' (s_tk s); s_files := map (map (mirror_rec (s_tk s))) (s_files s);
      s_tab := map (mirror_row' (s_tk s)) (s_tab s); s_cont := s_cont s; s_period := s_period s; s_dtdx := s_dtdx s;
-     s_lo := s_lo s; s_hi := s_hi s; s_life := s_life s; s_cfac := s_cfac s |}.
+     s_lo := s_lo s; s_hi := s_hi s; s_life := s_life s; s_cfac := s_cfac s; s_land := s_land s |}.
 
 (** * a concrete reversed set-up used by the non-vacuity examples: two forcing files, frames 1200 s apart on a
     600 s clock, a release table with a multiplicity and a row at the stop time (never released) *)
@@ -155,7 +176,8 @@ Definition ex_setup : setup :=
      s_files := [[rcq 0 1 10; rcq 1200 3 20]; [rcq 2400 7 30; rcq 3600 15 40]];
      s_tab := [ {| rt := 3600; rmult := 1; rvals := [0; 5120; 0] |}; {| rt := 2400; rmult := 2; rvals := [1; 6144; 1] |};
                 {| rt := 0; rmult := 1; rvals := [2; 7168; 0] |} ];
-     s_cont := None; s_period := 2; s_dtdx := 1 # 16; s_lo := 1; s_hi := 18; s_life := 5; s_cfac := [1; 1 # 2]%Q |}.
+     s_cont := None; s_period := 2; s_dtdx := 1 # 16; s_lo := 1; s_hi := 18; s_life := 5; s_cfac := [1; 1 # 2]%Q;
+     s_land := [] |}.
 (** a concrete forward set-up with CONTINUOUS release every 1200 s on a 600 s clock: the file times 0 (one
     row) and 2400 (two rows, one with multiplicity 2) lie on the frequency grid anchored at 0; the row at the
     stop time is never used *)
@@ -164,7 +186,16 @@ Definition ex_setup_cont : setup :=
      s_files := [[rcq 0 1 10; rcq 1200 3 20]; [rcq 2400 7 30; rcq 3600 15 40]];
      s_tab := [ {| rt := 0; rmult := 1; rvals := [0; 5120; 0] |}; {| rt := 2400; rmult := 2; rvals := [1; 6144; 1] |};
                 {| rt := 2400; rmult := 1; rvals := [2; 4096; 0] |}; {| rt := 3600; rmult := 1; rvals := [3; 7168; 0] |} ];
-     s_cont := Some 1200; s_period := 2; s_dtdx := 1 # 16; s_lo := 1; s_hi := 18; s_life := 5; s_cfac := [1; 1 # 2]%Q |}.
+     s_cont := Some 1200; s_period := 2; s_dtdx := 1 # 16; s_lo := 1; s_hi := 18; s_life := 5; s_cfac := [1; 1 # 2]%Q;
+     s_land := [] |}.
+(** [ex_setup] with LAND in cell 4, a coarser grid (dt/dx = 1/8), output at every step and no lifetime: the
+    particle released at x = 5 sits half-way between the masked face at 4 1/2 and the open face at 5 1/2 and
+    feels half the flow (reversed clock: towards lower x); its first two moves (candidates 4 1/16 and 4 5/16, in
+    the land cell) are CANCELLED, the third (to 4 9/16, in cell 5) is made, and from there it creeps towards the
+    masked face; the particles released at x = 6 lie between two open faces and feel the whole flow *)
+Definition ex_setup_land : setup :=
+  {| s_tk := s_tk ex_setup; s_files := s_files ex_setup; s_tab := s_tab ex_setup; s_cont := None; s_period := 1;
+     s_dtdx := 1 # 8; s_lo := 1; s_hi := 18; s_life := -1; s_cfac := [1; 1 # 2]%Q; s_land := [4] |}.
 (** records of a run in readable form: (step, [(pid, tag, x, age, temp)]) with reduced fractions *)
 Definition show_run (r : sim pv Z) : list (Z * list (Z * Z * Q * Z * Q)) :=
   map (fun x : rec pv => (rstep x, map (fun y : Z * Z * pv => let '(pid, tg, v) := y in
